@@ -5,6 +5,7 @@
 package yyflow
 
 import (
+	"go/constant"
 	"golang.org/x/tools/go/types/typeutil"
 	"fmt"
 	"go/ast"
@@ -951,6 +952,10 @@ func (in *interp) eval(e ast.Expr, s *State) Val {
 	case *ast.CallExpr:
 		return in.call(x, s)
 	case *ast.IndexExpr:
+		// a package-level table of constants indexed by a constant (messages[errKeyReference]) is that constant
+		if c, ok := in.tableConst(x); ok {
+			return c
+		}
 		base := in.eval(x.X, s)
 		which := "i"
 		if tv := info.Types[x.Index]; tv.Value != nil && tv.Value.ExactString() == "0" {
@@ -1648,4 +1653,95 @@ func (in *interp) indexEvent(s *State, base Val, which string, at ast.Expr) {
 // call site, by the rules over the actions.
 func (l *Lang) InlinedIntoActions(name string) bool {
 	return l.Called[name] > 0 && l.Residual[name] == 0 && l.Inlined[name] >= l.Called[name]
+}
+
+
+// tableConst: x is T[k] with T a package-level variable of the grammar's package that is initialised with an
+// array or slice literal of constants and written nowhere in the package, and k a constant: the element.
+func (in *interp) tableConst(x *ast.IndexExpr) (Val, bool) {
+	info := in.l.info()
+	id, ok := unparen(x.X).(*ast.Ident)
+	if !ok {
+		return nil, false
+	}
+	v, ok := info.Uses[id].(*types.Var)
+	if !ok || v.Pkg() != in.l.Pkg.Types || v.Parent() != v.Pkg().Scope() {
+		return nil, false
+	}
+	ktv := info.Types[x.Index]
+	if ktv.Value == nil {
+		return nil, false
+	}
+	k, exact := constant.Int64Val(constant.ToInt(ktv.Value))
+	if !exact {
+		return nil, false
+	}
+	var init ast.Expr
+	written := false
+	is := func(e ast.Expr) bool {
+		li, ok := unparen(e).(*ast.Ident)
+		return ok && info.Uses[li] == v
+	}
+	for _, f := range in.l.Pkg.Syntax {
+		ast.Inspect(f, func(n ast.Node) bool {
+			switch y := n.(type) {
+			case *ast.ValueSpec:
+				for i, nm := range y.Names {
+					if info.Defs[nm] == v && i < len(y.Values) {
+						init = y.Values[i]
+					}
+				}
+			case *ast.AssignStmt:
+				for _, l := range y.Lhs {
+					if is(l) {
+						written = true
+					}
+					if ix, ok := unparen(l).(*ast.IndexExpr); ok && is(ix.X) {
+						written = true
+					}
+				}
+			case *ast.UnaryExpr:
+				if y.Op == token.AND {
+					if is(y.X) {
+						written = true
+					}
+					if ix, ok := unparen(y.X).(*ast.IndexExpr); ok && is(ix.X) {
+						written = true
+					}
+				}
+			case *ast.SliceExpr:
+				if is(y.X) {
+					written = true // a slice of the table may be written through
+				}
+			}
+			return true
+		})
+	}
+	cl, ok := init.(*ast.CompositeLit)
+	if !ok || written {
+		return nil, false
+	}
+	next := int64(0)
+	for _, el := range cl.Elts {
+		val := el
+		if kv, ok := el.(*ast.KeyValueExpr); ok {
+			ktv := info.Types[kv.Key]
+			if ktv.Value == nil {
+				return nil, false
+			}
+			kk, ok := constant.Int64Val(constant.ToInt(ktv.Value))
+			if !ok {
+				return nil, false
+			}
+			next, val = kk, kv.Value
+		}
+		if next == k {
+			if tv := info.Types[val]; tv.Value != nil {
+				return Opq{"const " + tv.Value.ExactString()}, true
+			}
+			return nil, false
+		}
+		next++
+	}
+	return nil, false
 }
